@@ -34,6 +34,13 @@ deriving instance ToJson, FromJson for Incoming
 deriving instance ToJson, FromJson for Intersection
 deriving instance ToJson, FromJson for PlanningProblem
 deriving instance ToJson, FromJson for Doc
+deriving instance ToJson, FromJson for AddTransformation
+deriving instance ToJson, FromJson for GeoTransformation
+deriving instance ToJson, FromJson for Environment
+deriving instance ToJson, FromJson for Location
+deriving instance ToJson, FromJson for Header
+deriving instance ToJson, FromJson for File
+deriving instance ToJson, FromJson for FileCfg
 
 /-- element tree on the wire: [tag, [[k, v], …], text, [kids]] -/
 partial def xmlToJson (x : Xml) : Json :=
@@ -60,7 +67,30 @@ def optDoc (o : Option Doc) : Json :=
   | some d => okJ (toJson d)
   | none => errJ .other
 
+def optFile (o : Option File) : Json :=
+  match o with
+  | some d => okJ (toJson d)
+  | none => errJ .other
+
+def handleFile (op : String) (a : Json) : P Json := do
+  let fc : FileCfg ← parse (← field a "fcfg") "fcfg"
+  match op with
+  | "encode_file" =>
+    let f : File ← parse (← field a "file") "file"
+    pure <| okJ (xmlToJson (encodeFile fc f))
+  | "decode_file" =>
+    let x ← xmlOfJson (← field a "xml")
+    pure <| optFile (decodeFile fc x)
+  | "norm_file" =>
+    let f : File ← parse (← field a "file") "file"
+    pure <| okJ (toJson (normFile fc f))
+  | "roundtrip_file" =>
+    let f : File ← parse (← field a "file") "file"
+    pure <| optFile (decodeFile fc (encodeFile fc f))
+  | _ => throw s!"C01: unknown op {op}"
+
 def handle (op : String) (a : Json) : P Json := do
+  if op.endsWith "_file" then return (← handleFile op a)
   let cfg : Cfg ← parse (← field a "cfg") "cfg"
   match op with
   | "encode" =>
